@@ -255,6 +255,7 @@ func (w *World) metamorphicPass(baseDir string, opts RunOpts, variant string) bo
 		h   int64
 		idx int
 		dig string
+		log string
 	}
 	var keep []kept
 	removed := 0
@@ -278,7 +279,7 @@ func (w *World) metamorphicPass(baseDir string, opts RunOpts, variant string) bo
 			}
 			if !drop {
 				nb.Txs = append(nb.Txs, Intent{Kind: "bytes", Raw: hex.EncodeToString(w.History[hist+i])})
-				keep = append(keep, kept{h, i, digestTx(d)})
+				keep = append(keep, kept{h, i, digestTx(d), d.Log})
 			} else {
 				removed++
 			}
@@ -318,6 +319,13 @@ func (w *World) metamorphicPass(baseDir string, opts RunOpts, variant string) bo
 		for _, d := range b.DeliverTxs {
 			if k >= len(keep) || keep[k].h != h {
 				break
+			}
+			if digestTx(d) != keep[k].dig && (strings.Contains(d.Log, "gas limit reached") || strings.Contains(keep[k].log, "gas limit reached")) {
+				// the block's gas pool is shared by the contract txs of a block and a failed execution draws on
+				// it like a successful one (EVM rule, no listed state): not comparable
+				w.Probes.Hit("metamorphic.gas-pool-skip")
+				k++
+				continue
 			}
 			if digestTx(d) != keep[k].dig {
 				props := []string{"C05"}
